@@ -3,7 +3,11 @@ VARIANTS = ["gpi", "gpb_cap1", "gpb_cap2", "gpb_cap4", "gpb_cap256", "gpt_cap1",
 PROGRAMS = ["rlock,read:0,deref,rlock,deref,runlock,deref,runlock|swap:0,swap:0,sync,swap:0|retn:3,sync",
             "rlock,read:0,deref,yield,deref,runlock,rlock,read:0,deref,runlock|swap:0,sync|rlock,read:0,swap:1,deref,runlock",
             "rlock,read:1,deref,runlock,detach,attach,rlock,read:1,deref,runlock|swap:1,swap:1,swap:1,swap:1,swap:1|batch:3,sync",
-            "retn:2;rlock,read:2,rlock,read:0,deref,runlock,runlock|swap:0,swap:2,retn:5|sync,swap:0;sync"]
+            "retn:2;rlock,read:2,rlock,read:0,deref,runlock,runlock|swap:0,swap:2,retn:5|sync,swap:0;sync",
+            # four roles: an older reader that holds a synchronize() in its grace period, the synchronizer, a reader that enters
+            # during that grace period, and a writer that retires (below the buffer threshold) what the new reader has just read
+            "rlock,read:0,deref,runlock|sync|rlock,read:1,deref,yield,deref,runlock|swap:1",
+            "rlock,rlock,read:0,deref,runlock,runlock|sync,sync|rlock,read:1,deref,yield,deref,runlock|swap:1,swap:1"]
 # tiny two-thread programs explored exhaustively with a larger pre-emption bound (the classic single-flip grace-period
 # bug needs three pre-emptions: reader between its phase snapshot and its store, writer between two grace periods,
 # reader before it leaves)
